@@ -29,7 +29,7 @@ try:
         props = claimed if allprops else [p for p in [meta['breaks_property']] if p in claimed]
         fired = {}
         for pid in props:
-            c = subprocess.run([V + '/bin/check', pid, '--repo', work], stdout=subprocess.PIPE, stderr=subprocess.STDOUT)
+            c = subprocess.run([V + '/bin/check', pid, '--repo', work, '--evidence-dir', os.path.join(base, 'ev')], stdout=subprocess.PIPE, stderr=subprocess.STDOUT)
             out = c.stdout.decode()
             rules = sorted(set(re.findall(r'violated (\S+) in', out)))
             if c.returncode == 1:
